@@ -1154,11 +1154,27 @@ func runCase(t *rapid.T, r *rec.Recorder) {
 		evmsim.Failf("reference accepts a claim that is false in the simulated world (class %s)", applied)
 	}
 
-	eth := runETH(s, contract, cl, proofJSON)
+	// the contract address the CLIENT is configured with: normally the contract the proof is about; sometimes unset, a mere
+	// suffix of it, or another address - then nothing can prove "the configured contract's account" and every proof must fail
+	cfg, cfgKind := contract, "exact"
+	if rapid.IntRange(0, 11).Draw(t, "configuredContract") == 0 {
+		cfgKind = rapid.SampledFrom([]string{"unset", "suffix", "other"}).Draw(t, "configuredContractKind")
+		switch cfgKind {
+		case "unset":
+			cfg = []byte{}
+		case "suffix":
+			cfg = append([]byte(nil), contract[1:]...)
+		default:
+			cfg = append([]byte(nil), contract...)
+			cfg[rapid.IntRange(0, 19).Draw(t, "otherContractByte")] ^= 0x40
+		}
+		expect, determinate, isTrue = false, true, false
+	}
+	eth := runETH(s, cfg, cl, proofJSON)
 	bsc := outcome{}
 	withBSC := s.Delay >= 1
 	if withBSC {
-		bsc = runBSC(s, rapid.Bool().Draw(t, "oddValidators"), contract, cl, proofJSON)
+		bsc = runBSC(s, rapid.Bool().Draw(t, "oddValidators"), cfg, cl, proofJSON)
 	}
 
 	describe := func() string {
@@ -1186,6 +1202,7 @@ func runCase(t *rapid.T, r *rec.Recorder) {
 		lz++
 	}
 	r.Label("mut:" + applied)
+	r.Label("configured_contract:" + cfgKind)
 	r.Label("class:" + class)
 	r.Label("gate:" + gate)
 	r.Label(map[bool]string{true: "verdict:accept", false: "verdict:reject"}[eth.Accepted])
